@@ -142,10 +142,111 @@ def fork(rng):
             "meta": {"expect": expv, "resources": 4, "kinds": kinds, "fork": True}}
 
 
+def wrap(rng, sch, levels):
+    """sch behind `levels` in-place applicators (each adds one entry to the evaluation stack, none changes the verdict)."""
+    for _ in range(levels):
+        r = rng.random()
+        if r < 0.35:
+            sch = Obj([("allOf", [sch])])
+        elif r < 0.5:
+            sch = Obj([("anyOf", [False, sch])])
+        elif r < 0.65:
+            sch = Obj([("oneOf", [sch, False])])
+        elif r < 0.8:
+            sch = Obj([("if", True), ("then", sch)])
+        else:
+            sch = Obj([("not", Obj([("not", sch)]))])
+    return sch
+
+
+def topo(rng):
+    """Several use sites in ONE instance (array positions or properties) reach one generic resource G, which holds the $dynamicRef '#N',
+    through different intermediate resources; a resource is entered at its root or by a JSON Pointer into its middle ($defs/entry), at
+    equal or different stack depths. No python oracle: the real package is compared with the model (proved equal to the Spec's
+    outermost-declaring-resource rule)."""
+    k = rng.randint(2, 5)                     # resources 1..k-1 are intermediates, k is G
+    kinds = [rng.choice(["dyn", "dyn", "anchor", "none"]) for _ in range(k + 1)]
+    kinds[k] = rng.choice(["dyn", "dyn", "dyn", "anchor", "none"])
+    bodies = {}
+    for i in range(k + 1):
+        b = Obj()
+        if i > 0:
+            b.set("$id", res_name(i))
+        d = Obj()
+        if kinds[i] != "none":
+            d.kvs.append(("x", target_def(kinds[i], i)))
+        d.kvs.append(("entry", Obj()))
+        b.set("$defs", d)
+        bodies[i] = b
+
+    def place(i, mid, sch_kvs):
+        """put keywords into resource i: at its root, or in $defs/entry when it is entered in the middle"""
+        tgt = bodies[i].get("$defs").get("entry") if mid else bodies[i]
+        for kk, vv in sch_kvs:
+            if tgt.get(kk) is not None and kk == "allOf":
+                tgt.set("allOf", tgt.get("allOf") + vv)
+            else:
+                tgt.set(kk, vv)
+
+    def enter(i, mid):
+        return res_name(i) + ("#/$defs/entry" if mid else "")
+
+    g_mid = rng.random() < 0.4
+    form = rng.choice(["#N", "#N", "#N", res_name(k) + "#N", "#/$defs/x"])
+    place(k, g_mid, [("$dynamicRef", form)])
+    inter = list(range(1, k))
+    rng.shuffle(inter)
+    nsites = rng.randint(2, 3)
+    sites = []
+    for s_i in range(nsites):
+        mine = [inter.pop() for _ in range(min(len(inter), rng.randint(0, 2)))]
+        chain_ = mine + [k]
+        # the site schema enters the first resource of its chain; every intermediate enters the next one
+        mids = [rng.random() < 0.4 for _ in chain_]
+        mids[-1] = g_mid
+        for a, b_, ma, mb in zip(chain_, chain_[1:], mids, mids[1:]):
+            hop = Obj([("$ref", enter(b_, mb))]) if rng.random() < 0.8 or mb else Obj([("$dynamicRef", enter(b_, mb))])
+            lv = rng.randint(0, 2)
+            if lv == 0:
+                place(a, ma, hop.kvs)
+            else:
+                place(a, ma, [("allOf", [wrap(rng, hop, lv - 1)])])
+        site = wrap(rng, Obj([("$ref", enter(chain_[0], mids[0]))]), rng.randint(0, 2))
+        sites.append(site)
+    root = bodies[0]
+    arr = rng.random() < 0.5
+    if arr:
+        root.set("prefixItems", sites)
+    else:
+        root.set("properties", Obj([("s%d" % i, st) for i, st in enumerate(sites)]))
+    defs = root.get("$defs")
+    docs = []
+    g_remote = rng.random() < 0.2
+    for i in range(1, k + 1):
+        if i == k and g_remote:
+            docs.append(["http://x.test/dyn/" + res_name(i), bodies[i]])
+        else:
+            defs.kvs.append(("res%d" % i, bodies[i]))
+    import itertools
+    insts = []
+    combos = list(itertools.product(range(k + 1), repeat=nsites))
+    if len(combos) > 30:
+        combos = rng.sample(combos, 24) + [(m,) * nsites for m in range(k + 1)]
+    for ms in combos:
+        insts.append([mark(m) for m in ms] if arr else Obj([("s%d" % i, mark(m)) for i, m in enumerate(ms)]))
+    if arr:
+        insts += [[mark(m)] for m in range(k + 1)]
+    else:
+        insts += [Obj([("s%d" % i, mark(m))]) for i in range(nsites) for m in range(k + 1)]
+    return {"op": "validate", "args": {"schema": root, "docs": docs, "base": BASE, "loader": True, "insts": insts},
+            "meta": {"expect": None, "resources": k + 1, "kinds": kinds, "topo": True}}
+
+
 def gen(rng, tier, n):
     ops = [o for o in suite.suite_ops("draft2020-12") if "dynamicRef" in o["meta"]["suite"] or "dynamic" in o["meta"]["suite"]]
     while len(ops) < n:
-        ops.append(chain(rng) if rng.random() < 0.75 else fork(rng))
+        r = rng.random()
+        ops.append(chain(rng) if r < 0.5 else fork(rng) if r < 0.65 else topo(rng))
     return ops
 
 
